@@ -83,6 +83,8 @@ def run(rep):
     rep.guard(c15.n1, rep, w)     # the exception-in-flight flag does not survive into the next run (a later try statement would re-raise a phantom)
     import c06
     rep.guard(c06.s1, rep, w)     # delivering an exception drops the stack down to the handler's height: the variables of the try block a closure captured are closed first (the handler and the closure keep seeing them)
+    import c09
+    rep.guard(c09.f6, rep, w)     # the exception-in-flight state belongs to the fiber the exception is in: a switch that overwrites the VM-wide flag without saving it for the side that is suspended loses a propagating exception across yield / resume
     import c02
     rep.guard(c02.p13, rep, w, 'C08')   # what a handler records (stack height, frame count, addresses) is kept in full width: a height squeezed into a byte wraps for a try statement entered high in a frame, and the handler cuts the stack to the wrong place
 
